@@ -114,6 +114,12 @@ def make_case(rng, i, tier):
         desc, shape = gen.gen_cfg(rng, maxrules=6, nterms=2, nnt=rng.choice([1, 2, 2, 3]))
     V = desc["V"]
     ctxs = gen.all_strings(V, 2) + [[rng.choice(V) for _ in range(3)] for _ in range(2)]
+    if rng.random() < 0.5:
+        # on one LM object: a context P, then P extended by several tokens at once (intermediate prefixes never cached), then P
+        # and a sibling of P's first extension again — BEFORE the systematic sweep fills the cache
+        P = [rng.choice(V) for _ in range(rng.choice([1, 1, 2]))]
+        ext = [rng.choice(V) for _ in range(rng.choice([2, 3]))]
+        ctxs = [P, P + ext, P, P + [rng.choice(V)]] + ctxs
     xs = gen.gen_strings(rng, desc, k=4, maxlen=4)[:7]
     return {"id": i, "shape": shape, "finite": finite, "cfg": desc, "ctxs": ctxs, "xs": xs, "lms": LMS,
             "jitter": rng.randrange(1 << 30) if rng.random() < 0.6 else None}
